@@ -109,6 +109,27 @@ CLAIMED = {
         "Equations are judged where all values they read are inside the returned span; singular observation covariances are excluded by construction; tolerance 1e-8 relative.",
         "DESIGN.md section 3, C08",
     ),
+    "C07": (
+        "Hypothesis-generated models and plans; round-trip oracle (truth simulation -> exogenize targets/endogenize instruments -> recovered shocks and path), harness-side impact-matrix conditioning",
+        "A truth simulation of a generated determinate model is driven by initial conditions, background shocks and 1-3 instrument shock cells; "
+        "the plan exogenizes as many (variable, date) cells at their truth values and endogenizes the instruments (unanticipated same-date "
+        "pairs over several dates, or anticipated targets/instruments at arbitrary dates; swap_* and separate exogenize/endogenize APIs; "
+        "first_order and stacked_time). The planned run must hit every exogenized cell, leave every non-endogenized shock cell at its input, "
+        "and recover the instrument values and the whole path. Only set-ups whose impact matrix (built by the harness from simulated "
+        "responses) has condition number < 1e6 are judged.",
+        "Exactly identified plans only; with anticipated swaps later surprises are not generated (they change the information set); stacked_time non-convergence is not a violation.",
+        "DESIGN.md section 3, C07",
+    ),
+    "C14": (
+        "Hypothesis-generated series/constraints/spans; hpf compared with an independent null-space constrained minimiser and projected gradient, lonf with KKT conditions of the l1 trend-filter problem",
+        "For generated series (all frequencies, 1-3 variants, interior NaNs, level/change constraints incl. outside the data, log on/off, output "
+        "spans inside/equal/beyond/disjoint) hpf must satisfy trend+gap=data (trend*gap under log), meet constraints, equal the harness's own "
+        "constrained minimiser of the HP objective with zero projected gradient, return straight lines unchanged, clip only by span, and agree "
+        "across method/functional/hpf_trend/hpf_gap forms; lonf must return trend+gap=data for every variant with dual feasibility, "
+        "complementary slackness and a primal objective not above drawn competitors.",
+        "Tolerances scale with smooth and the condition number (measured margins >= 50x); undocumented edges listed in ASSUMPTIONS are not asserted; the default smoothing value is not part of the property.",
+        "DESIGN.md section 3, C14",
+    ),
 }
 
 NOT_BUILT_REASON = "check not built yet in this round (design in DESIGN.md section 3); not claimed until it is quiet on the unchanged tree and kills its mutants"
